@@ -741,20 +741,42 @@ theorem simplifyRaw_bin_nb (op : BinOp) (l r : Arg) (hl : nb l = true) (hr : nb 
         · exact (neutralizeRaw_nb hb he).1
         · exact merge_nb op l r hl hr hlr c a' he
 
+/-- the `Negate`-of-`Subtract` arm: swap, then `neutralize_raw` (repair of K4) -/
+theorem simplifyRaw_neg_sub (l r : Arg) :
+    simplifyRaw (.neg (.bin .sub l r)) =
+      match neutralizeRaw (.bin .sub r l) with
+      | .ok (_, a) => .ok (true, a)
+      | .err e => .err e
+      | .panic => .panic := by
+  simp only [simplifyRaw]
+  cases neutralizeRaw (.bin .sub r l) <;> rfl
+
 theorem simplifyRaw_neg_ne_panic (v : Arg) : simplifyRaw (.neg v) ≠ .panic := by
   simp only [simplifyRaw]
-  split <;> try simp
-  split <;> simp
+  split
+  · rename_i l r
+    cases h : neutralizeRaw (.bin .sub r l) with
+    | ok p => simp
+    | err e => simp
+    | panic => exact absurd h (neutralizeRaw_ne_panic _)
+  · split <;> simp
+  all_goals simp
 
 theorem simplifyRaw_neg_nb (v : Arg) (hv : nb v = true) (c : Bool) (a' : Arg)
     (he : simplifyRaw (.neg v) = .ok (c, a')) : nb a' = true := by
   simp only [simplifyRaw] at he
   split at he
   · rename_i l r
-    simp only [Res.ok.injEq, Prod.mk.injEq] at he
-    obtain ⟨_, rfl⟩ := he
     obtain ⟨h1, h2, h3⟩ := nb_bin.1 hv
-    exact nb_bin.2 ⟨h2, h1, fun ⟨x, y⟩ => h3 ⟨y, x⟩⟩
+    have hb : nb (.bin .sub r l) = true := nb_bin.2 ⟨h2, h1, fun ⟨x, y⟩ => h3 ⟨y, x⟩⟩
+    cases hn : neutralizeRaw (.bin .sub r l) with
+    | ok p =>
+      obtain ⟨c1, x⟩ := p
+      simp only [hn, Res.ok.injEq, Prod.mk.injEq] at he
+      obtain ⟨_, rfl⟩ := he
+      exact (neutralizeRaw_nb hb hn).1
+    | err e => simp [hn] at he
+    | panic => simp [hn] at he
   · split at he
     · simp at he
     · simp only [Res.ok.injEq, Prod.mk.injEq] at he
